@@ -2,7 +2,8 @@
 //! against a list-level model written from the property statement.
 
 use pest_typed::choices::Choice2;
-use pest_typed::predefined_node::{AtomicRepeat, Push, Rep, RepExact, RepMin, RepMinMax, RepOnce, SkipChar, Str, POP};
+use pest_typed::predefined_node::{AtomicRepeat, Push, Rep, RepExact, RepMin, RepMinMax, RepOnce, Skip, SkipChar, Str, POP};
+use pest_typed::StringArrayWrapper;
 use pest_typed::tracker::Tracker;
 use pest_typed::{AsInput, Input, Stack, StringWrapper, TypedNode};
 use serde_json::json;
@@ -267,6 +268,44 @@ pub fn inst_skipchar<const N: usize>() -> Inst {
     Inst { kind: "SkipChar", desc: format!("SkipChar<{}>", N), run: run::<N>, model: model::<N>, bounds: None, multibyte: true }
 }
 
+macro_rules! needles {
+    ($name:ident, [$($s:literal),*]) => {
+        #[derive(Clone, Debug, PartialEq)]
+        pub struct $name;
+        impl StringArrayWrapper for $name {
+            const CONTENT: &'static [&'static str] = &[$($s),*];
+        }
+    };
+}
+needles!(N1, ["x"]);
+needles!(N2, ["xy", "y"]);
+needles!(N3, ["y", "xy"]);
+needles!(N4, ["xy", "yx"]);
+needles!(N5, ["é", "xyx"]);
+needles!(N6, ["xyx", " "]);
+
+/// The skip-until node: stops in front of the earliest occurrence of any needle, else at the end;
+/// it never fails.
+pub fn inst_skip<S: StringArrayWrapper + 'static>(name: &str) -> Inst {
+    fn run<S: StringArrayWrapper + 'static>(s: &str) -> Obs {
+        run_node::<Skip<'_, S>>(s, |n| n.span.as_str().len())
+    }
+    fn model<S: StringArrayWrapper>(s: &str) -> Option<(usize, usize)> {
+        let at = (0..s.len()).filter(|i| s.is_char_boundary(*i)).find(|i| S::CONTENT.iter().any(|n| s[*i..].starts_with(n))).unwrap_or(s.len());
+        Some((at, at))
+    }
+    Inst { kind: "Skip", desc: format!("Skip<{}>", name), run: run::<S>, model: model::<S>, bounds: None, multibyte: name.contains('é') }
+}
+
+pub fn all_skips(emit: &mut dyn FnMut(Inst)) {
+    emit(inst_skip::<N1>("[x]"));
+    emit(inst_skip::<N2>("[xy,y]"));
+    emit(inst_skip::<N3>("[y,xy]"));
+    emit(inst_skip::<N4>("[xy,yx]"));
+    emit(inst_skip::<N5>("[é,xyx]"));
+    emit(inst_skip::<N6>("[xyx, ]"));
+}
+
 fn inputs(alphabet: &[&str], max_len: usize) -> Vec<String> {
     let mut v = Vec::new();
     let mut s = String::new();
@@ -282,9 +321,10 @@ fn inputs(alphabet: &[&str], max_len: usize) -> Vec<String> {
 pub fn run(col: &Collector, thorough: bool, jobs: usize) -> serde_json::Value {
     let max_len = if thorough { 9 } else { 8 };
     let ascii = inputs(&["x", "y", " "], max_len);
-    let multi = inputs(&["x", "é", " ", "😀"], 5);
+    let multi = inputs(&["x", "é", " ", "😀", "y"], 5);
     let mut insts: Vec<Inst> = Vec::new();
     crate::inst::all_c19(&mut |i| insts.push(i));
+    all_skips(&mut |i| insts.push(i));
     let n_insts = insts.len();
     vutil::run_workers(jobs, col, |w, n| {
         let mut l = Local::new();
